@@ -102,8 +102,8 @@ func buildScenario(rng *rand.Rand, o genOpts, extraNodes int, allowBatch bool, a
 	}
 	for _, nd := range sc.nodes {
 		nd.dumpAll(c)
-		if o.extra == 0 && !o.leave && !nd.batched {
-			nd.dumpDag(c)
+		if !nd.batched {
+			nd.dumpDag(c) // static and dynamic validator sets (the model takes the node's table)
 		}
 	}
 	// frames of the reference node (every processed round still cached)
